@@ -5,3 +5,4 @@ import Driver.Report
 import Driver.Spell
 import Driver.Hidden
 import Driver.Wh
+import Driver.Cli
